@@ -193,8 +193,50 @@ def suite(wt):
     return 0 if not still else 1
 
 
+def retest(name):
+    """re-run, in a scratch worktree with the patch, only the tests recorded as still failing (fixture flakes under load)"""
+    dst = os.path.join(VERIF, 'seeded', name)
+    meta = load_meta(dst)
+    still = meta.get('confirmed', {}).get('suite', {}).get('still_failing', [])
+    if not still:
+        print('nothing to retest')
+        return 0
+    wt = '/tmp/rt_' + name
+    sh('git -C %s worktree remove --force %s' % (REPO, wt))
+    shutil.rmtree(wt, ignore_errors=True)
+    rc, out = sh('git -C %s worktree add --detach %s HEAD' % (REPO, wt))
+    assert rc == 0, out
+    left = []
+    try:
+        rc, out = sh('git apply %s' % os.path.join(dst, 'patch.diff'), cwd=wt)
+        assert rc == 0, out
+        for t in still:
+            mod, fn = t.split('::', 1)
+            path = mod.replace('.', '/') + '.py'
+            ok = False
+            for _ in range(4):
+                rc, out = sh('%s -m pytest -q -p no:cacheprovider --timeout=120 "%s::%s"' % (PY, path, fn), cwd=wt, env={'PYTHONPATH': wt}, timeout=600)
+                if rc == 0:
+                    ok = True
+                    break
+            if not ok:
+                left.append(t)
+    finally:
+        sh('git -C %s worktree remove --force %s' % (REPO, wt))
+        shutil.rmtree(wt, ignore_errors=True)
+    meta['confirmed']['suite']['still_failing'] = left
+    meta['confirmed']['suite']['retested_later'] = still
+    meta['confirmed']['ok'] = bool(meta['confirmed'].get('patch_applies') and meta['confirmed'].get('compiles') and meta['confirmed']['demo_unchanged']['exit'] == 0
+                                   and meta['confirmed']['demo_patched']['exit'] != 0 and not left)
+    save_meta(dst, meta)
+    print(name, 'still failing after retest:', left)
+    return 0 if not left else 1
+
+
 if __name__ == '__main__':
     cmd = sys.argv[1]
+    if cmd == 'retest':
+        sys.exit(retest(sys.argv[2]))
     if cmd == 'suite':
         sys.exit(suite(sys.argv[2]))
     if cmd == 'confirm':
